@@ -567,6 +567,11 @@ func Evatra(l *WaterSharedVars, g *GlobalVarsMain, hPath *HFilePath, zeit int) {
 		// ! LUMDAY                = kumulative Dauer des Luftmangels (Tage), maximum 4
 		// ! LURED                 = Reduktionsfaktor fuer Transpiration
 		LUPOR := (g.PORGES[0] + g.PORGES[1] + g.PORGES[2] - g.WG[0][0] - g.WG[0][1] - g.WG[0][2]) / 3
+		// a water content a rounding error above the pore volume is no negative air porosity
+		// (a crop with critical air porosity 0 must not end in 0/0)
+		if LUPOR < 0 {
+			LUPOR = 0
+		}
 		if LUPOR < g.LUKRIT[g.INTWICK.Index] {
 			g.LUMDAY = g.LUMDAY + g.DT.Index
 			if g.LUMDAY > 4 {
